@@ -159,7 +159,7 @@ func vPersist(l *entryLog, ud pb.Update) {
 // (iv) an entry is never handed out for apply unless committed and saved or in
 // the same EntriesToSave; the acknowledgements never change the logical log;
 // nothing is handed out for apply twice; what was saved is not saved again.
-// vcheck: props=C04 reach=tosave,toapply,snapshot,trimmed,done workers=16
+// vcheck: props=C04,C02 reach=tosave,toapply,snapshot,trimmed,done workers=16
 func VHarness_C19_UpdateCycle() {
 	o := vLogOpts{maxPers: 1, maxWin: 2, ss: true, noAppliedTo: true}
 	roles := []State{follower}
